@@ -163,9 +163,20 @@ func registerVrt(w *World) {
 		in.assertsHit++
 		if b, ok := c.BoolVal(); ok {
 			if !b {
-				_, model := in.query()
-				in.violation(msg, model)
-				in.end("violation", msg)
+				// the assertion fails on this path: a violation only if the path
+				// itself is feasible (a branch the solver could not decide may
+				// have been kept although it is infeasible)
+				r, model := in.query()
+				switch r {
+				case Sat:
+					in.violation(msg, model)
+					in.end("violation", msg)
+				case Unsat:
+					in.end("infeasible", "path condition unsatisfiable at a failing assertion")
+				default:
+					in.Events = append(in.Events, Event{Kind: "inconclusive", Msg: "solver unknown on the path condition of a failing assertion: " + msg, Where: in.where()})
+					in.end("inconclusive", msg)
+				}
 			}
 			return nil
 		}
